@@ -34,13 +34,26 @@ namespace XmppModel.Correlate
 inductive Kind | iq | message | presence
   deriving DecidableEq, Repr, Inhabited
 
-/-- a top-level element read by the serve loop: stanza kind, id attribute and whether its
-type attribute is `result` or `error` (only those are looked up) -/
+/-- namespace of a start element name as the lookup sees it: none (a request built without a
+namespace; the encoder adds the stream's on the way out), the stream's stanza namespace
+(`jabber:client` on a client stream), or the other stanza namespace -/
+inductive Ns | empty | stream | other
+  deriving DecidableEq, Repr, Inhabited
+
+/-- a top-level element read by the serve loop: local name (stanza kind), namespace (never
+`empty`: the decoder resolves it), id attribute and whether its type attribute is `result` or
+`error` (only those are looked up; a `get`/`set`/`chat`/… stanza never consults the table) -/
 structure Stanza where
   kind : Kind
   id : Nat
   resp : Bool
+  ns : Ns := .stream
   deriving DecidableEq, Repr, Inhabited
+
+/-- `readerChan.stanzaName == start.Name || readerChan.stanzaName == xml.Name{Local: start.Name.Local}`
+on the namespace part: equal, or the request carried none.  The local names must be equal in
+both disjuncts (`kinds j = st.kind` in `lookup`). -/
+def nsMatch (reg inc : Ns) : Bool := reg == inc || reg == .empty
 
 inductive Outcome
   | reply (k : Nat)   -- the response handed over for peer stanza number `k`
@@ -64,6 +77,7 @@ structure Cfg where
   ids : Nat → Nat
   kinds : Nat → Kind
   derived : Bool
+  spaces : Nat → Ns := fun _ => .empty   -- namespace of the start element the request was sent with
 
 structure St where
   rpc : Nat → RPc
@@ -98,7 +112,7 @@ def ctxDone (cfg : Cfg) (s : St) (i : Nat) : Bool :=
 def lookup (cfg : Cfg) (s : St) (st : Stanza) : Option Nat :=
   if st.resp then
     match s.table st.id with
-    | some j => if cfg.kinds j = st.kind then some j else none
+    | some j => if cfg.kinds j = st.kind ∧ nsMatch (cfg.spaces j) st.ns = true then some j else none
     | none => none
   else none
 
@@ -181,7 +195,7 @@ def holdsOpen (s : St) (i k : Nat) : Prop :=
 
 /-- the stanza matches what requester `i` registered -/
 def matchesReq (cfg : Cfg) (i : Nat) (st : Stanza) : Prop :=
-  st.resp = true ∧ st.id = cfg.ids i ∧ st.kind = cfg.kinds i
+  st.resp = true ∧ st.id = cfg.ids i ∧ st.kind = cfg.kinds i ∧ nsMatch (cfg.spaces i) st.ns = true
 
 /-! ### the receipts helper (`receipts.Handler`), repaired code
 
